@@ -97,3 +97,35 @@ def sign_and_ctx_rules(rep, F, fns, sink_pat=None):
             fn = next(f for f in fns if o['key'].split(':', 2)[2].startswith(f.key + ':'))
             n4 += mirror_table(rep, F, fn, sink_pat)
     return n1 + n2, n3 + n4
+
+
+# kernels that work on a magnitude / assume a sign dispatch done by their caller: who may call them (confirmed by reading)
+KERNEL_GATES = {
+    'arithmetic::inverse::impl_inverse_uint_scale': (r'^BigDecimal::inverse_with_context$', 'inverse_with_context mirrors Floor/Ceiling for negative operands and re-attaches the sign'),
+    'arithmetic::sqrt::impl_sqrt': (r'^BigDecimal::sqrt_with_context$|^BigDecimalRef(::<.*>)?::sqrt_(abs_|copysign_)?with_context$', 'the sqrt entry points dispatch on the sign (negative -> None / abs / copysign)'),
+    'arithmetic::cbrt::impl_cbrt_uint_scale': (r'^arithmetic::cbrt::impl_cbrt_int_scale$', 'impl_cbrt_int_scale hands over the magnitude together with the sign for the rounding data'),
+    'arithmetic::cbrt::impl_cbrt_int_scale': (r'^BigDecimal::cbrt_with_context$', 'single entry point'),
+}
+
+
+def kernel_gates(rep, F, which, rule='KERNEL-GATE'):
+    """who-may-call: the magnitude kernels are reached only through the entry point that prepares their sign handling"""
+    cg = F.callgraph()
+    n = 0
+    for tgt, (pat, why) in sorted(KERNEL_GATES.items()):
+        if not re.search(which, tgt):
+            continue
+        if tgt not in F.fns:
+            rep.violation(rule, tgt.split('::')[-1] + ':missing', 'anchor function not found (fail closed)')
+            continue
+        n += 1
+        callers = sorted(k for k, v in cg.items() if tgt in v and k != tgt)
+        bad = [c for c in callers if not re.search(pat, c)]
+        key = F.fns[tgt].key + ':callers'
+        if bad:
+            rep.violation(rule, key, '%s calls the magnitude kernel directly; %s - a caller that bypasses it loses that step' % (bad[0], why), F.fns[bad[0]].where())
+        elif not callers:
+            rep.undecided(rule, key, 'no caller found', F.fns[tgt].where())
+        else:
+            rep.ok(rule, key, 'called only from %s (%s)' % (', '.join(c.split('::')[-1] for c in callers), why), F.fns[tgt].where())
+    return n
